@@ -22,7 +22,7 @@ if os.environ.get("PYTHONHASHSEED") != "0" or os.environ.get("CURTSIES_VERIF") !
     env["PYTHONHASHSEED"] = "0"
     env["CURTSIES_VERIF"] = "1"
     env["TERM"] = "xterm-256color"
-    env["PYTHONPATH"] = "/repo"
+    env["PYTHONPATH"] = os.environ.get("CURTSIES_REPO", "/repo")
     env["PYTHONDONTWRITEBYTECODE"] = "1"
     env["LC_ALL"] = "C.UTF-8"
     os.execve(sys.executable, [sys.executable] + sys.argv, env)
@@ -34,7 +34,7 @@ import time
 
 HERE = os.path.dirname(os.path.abspath(__file__))
 sys.path.insert(0, HERE)
-sys.path.insert(0, "/repo")
+sys.path.insert(0, os.environ.get("CURTSIES_REPO", "/repo"))
 
 import lib  # noqa: E402
 
